@@ -148,6 +148,9 @@ def main():
         sys.exit(suites.replay(pid, replay))
     t0 = time.time()
     os.makedirs(REPLAYS, exist_ok=True)
+    for f in os.listdir(REPLAYS):
+        if f.startswith(pid + "-"):
+            os.remove(os.path.join(REPLAYS, f))
     spec = PROPS[pid]
     problems = []        # (kind, text) - broken proof obligation / correspondence
     # 1. proof
@@ -192,6 +195,7 @@ def main():
             rp = os.path.join(REPLAYS, f"{pid}-{reported}.json")
             json.dump(dict(property=pid, kind="failing-input", suite=f["suite"], where=f["where"], tag=f["tag"],
                            message=f["message"], case=f.get("case"), mode=f.get("mode"), seed=seed, tier=tier,
+                           fault_call=f.get("fault_call"),
                            how_to_replay=f"bin/check {pid} --replay {rp}"), open(rp, "w"), indent=1)
             print(f"VIOLATION property={pid} replay={rp}")
             reported += 1
